@@ -1396,7 +1396,8 @@ pub fn gen_workload_sized(rng: &mut Rng, small: bool) -> Workload {
     // evaluates an expression of its own (`r`): counted resources held across nested evaluations
     if !small && rng.percent(1) {
         let cores = std::thread::available_parallelism().map(|n| n.get()).unwrap_or(8);
-        let crowd = 2 * cores + 4;
+        // (at least 72: limits on calls in flight tend to be powers of two up to 64)
+        let crowd = (2 * cores + 4).max(72);
         let nested = Expr::Call(
             "r".to_string(),
             Some(Box::new(Expr::Call(
